@@ -10,7 +10,7 @@ for d in seeded/$glob/; do
   props="$prop"; [ -f $d/extra_props ] && props="$props $(cat $d/extra_props)"
   res=MISSED
   for p in $props; do
-    out=$(timeout 1500 ./tools/try_patch.sh $d/patch.diff $budget $p 2>&1)
+    out=$(timeout 1500 ./tools/try_patch.sh /verif/$d/patch.diff $budget $p 2>&1)
     if echo "$out" | grep -q "^VIOLATION property=$p"; then res="caught by $p ($(echo "$out" | grep -m1 '^  class' | sed 's/  class: //'))"; break; fi
     if echo "$out" | grep -q "INFRA\|BUILD FAILED\|patch does not apply"; then res="INFRA: $(echo "$out" | grep -m1 'INFRA\|BUILD\|apply')"; fi
   done
